@@ -8,7 +8,6 @@ import (
 	"fmt"
 	"sync"
 	"testing"
-	"testing/synctest"
 	"time"
 
 	"github.com/internetarchive/Zeno/internal/pkg/veriflib"
@@ -41,7 +40,9 @@ func genC16Case(t *rapid.T) c16Case {
 			op.Host = rapid.IntRange(0, c.Hosts-1).Draw(t, "host")
 		}
 		if op.Kind == "failure" {
-			op.Code = []int{500, 503, 502}[rapid.IntRange(0, 2).Draw(t, "code")] // 5xx only: no penalty sleeps in real time
+			// rate cuts (5xx) and back-off penalties (429 ...): a penalised host's bucket is still just one table entry, and
+			// stays evictable (the waits it causes are virtual time)
+			op.Code = []int{500, 503, 429, 429, 403, 408}[rapid.IntRange(0, 5).Draw(t, "code")]
 		}
 		c.Ops = append(c.Ops, op)
 	}
@@ -52,7 +53,7 @@ func genC16Case(t *rapid.T) c16Case {
 // (50 ms sleeps) - virtual time makes that free. The table bound itself does not depend on time.
 func propC16Table(t veriflib.TB, outer *testing.T, c c16Case) {
 	var failure string
-	synctest.Test(outer, func(*testing.T) { failure = c16RunTable(c) })
+	veriflib.Bubble(outer, "C16", "C16/table", c, func(*testing.T) { failure = c16RunTable(c) })
 	if failure != "" {
 		veriflib.Fail(t, "C16", "C16/table", c, nil, "%s", failure)
 	}
